@@ -34,7 +34,7 @@ def extra_dce(gen, blocks):
 
 
 def check_one(item):
-    f = item["f"]; tier = item["tier"]
+    f = ilcheck.view(item["f"]); tier = item["tier"]
     res = {"id": f["meta"], "status": None}
     r = ilcheck.call_fn("dce", f)
     if "panic" in r or "died" in r:
@@ -244,6 +244,11 @@ def main():
     n = 96 if rep.tier == "quick" else 600
     fs = ilgen.corpus(1000 + rep.seed, n, profile="mixed", widths=(32, 8), extra=extra_dce)
     fs += ilgen.corpus(5000 + rep.seed, n // 3, profile="const", widths=(32,), extra=extra_dce)
+    holed = ilgen.corpus(7000 + rep.seed, n // 3, profile="mixed", widths=(32,), extra=extra_dce)
+    hr = random.Random(rep.seed + 99)
+    for f in holed:
+        ilgen.add_holes(f, hr); f["meta"]["holes"] = True
+    fs += holed
     fs += ilcheck.lifted_corpus(rep.tier)
     items = [{"f": f, "tier": rep.tier} for f in fs]
     results = common.pmap(check_one, items, chunksize=2)
